@@ -57,7 +57,11 @@ class C42(Check):
     id = "C42"
     prop_file = "theories/Properties/Properties_C42.v"
     theorems = ("C42_read_back", "C42_stream_events_read_back", "C42_order_preserved", "C42_no_event_across_buffers",
-                "C42_key_pairing_bijective", "C42_key_fits_uint16", "C42_has_info_flag_without_info_refuted")
+                "C42_key_pairing_bijective", "C42_key_fits_uint16", "C42_logged_event_ok",
+                "C42_has_info_flag_without_info_prefix_refuted", "C42_infos_kept_when_entry_fits",
+                "C42_oversized_info_omitted", "C42_kept_infos_position_independent",
+                "C42_repaired_loop_agrees_with_prefix", "C42_dump_thread_info_loop_prefix_refuted",
+                "C42_thread_entry_ends_before_buffer_end", "C42_thread_entry_exactly_full_prefix_refuted")
     comp = "prof"
     extract_file = "theories/Extract/Extract_Prof.v"
     extracted = ("prof",)
@@ -72,7 +76,7 @@ class C42(Check):
                   "parsec_binary_profile.h). Tie: a harness linked to a -DPARSEC_PROF_TRACE=ON build writes a profile with the real "
                   "writer API and reads it back with the real dbpreader.c; the extracted reader model is run on the very bytes "
                   "of that file and must print the same dictionary/threads/events, and the extracted writer model must "
-                  "reproduce every events buffer of the file byte for byte. Partial: the file header, the global info blocks, "
+                  "reproduce every events, dictionary and thread-table buffer of the file byte for byte. Partial: the file header, the global info blocks, "
                   "the merge of several ranks' files, mmap/ftruncate/write and the I/O helper thread are outside the model.")
     level_note = ("Trusted: Coq kernel, extraction, the harness, the OCaml driver (parses the 224-byte file header and feeds "
                   "buffers to the model), the profiling build configuration (default options: mmap + helper thread). File offsets "
@@ -87,10 +91,12 @@ class C42(Check):
                "OCaml driver parses the profile file header (outside the model) and compares buffers")
     assumptions = ("little-endian x86-64 layout of the structures of parsec_binary_profile.h",
                    "every event fits a buffer: 24 + info_length <= buffer size - 25 (asserted by the writer, compiled out)",
-                   "keys are registered keys; the HAS_INFO flag is passed only together with an info pointer "
-                   "(otherwise the trace is misread: see C42_has_info_flag_without_info_refuted)",
+                   "keys are registered keys (any flags: since fix 27f62af the stored HAS_INFO bit follows the info pointer; "
+                   "the pre-fix behaviour is kept as C42_has_info_flag_without_info_prefix_refuted)",
                    "dictionary names < 64 bytes, attributes of 6..127 bytes (reader keeps the last 6), names distinct; "
-                   "stream infos fit the thread buffer; no allocation / I/O failure")
+                   "a stream info that does not fit a thread buffer is omitted (fix 54d29e4; the dump then returns "
+                   "PARSEC_ERROR with a complete file; fix 73717d1: a thread entry always ends before the end of a buffer); "
+                   "no allocation / I/O failure")
 
     # ---- builds -------------------------------------------------------------
     def pbuild(self):
@@ -147,6 +153,8 @@ class C42(Check):
             clen = r.pick([0, 0, 1, 5, 20, 100, 300, 1000]) if r.chance(1, 2) else r.range(0, 30)
             keys.append((nlen, alen, clen, ilens[j]))
         ninfo = [r.pick([0, 0, 1, 2, 3]) for _ in range(ns)]
+        if r.chance(1, 8):          # large infos: the thread table needs more than one buffer
+            ninfo = [r.range(1200, 1900) for _ in range(ns)]
         evs = []
         idpool = [0, 1, 2, U64, U64 - 1, 1 << 32, (1 << 63), r.u64(), r.u64() & 0xffff]
         tppool = [0, 1, U32, 7, r.u64() & U32]
@@ -162,6 +170,58 @@ class C42(Check):
             evs.append((sid, key, ufl, r.pick(tppool), r.pick(idpool), r.below(256) if hasinfo else None))
         return self.fmt(pages, mode, ns, keys, ninfo, evs)
 
+    def flag_case(self, r):
+        """PARSEC_PROFILING_EVENT_HAS_INFO with a NULL info.  The reader then misparses what follows; the cases are
+        shaped so that the misparse stays inside defined behaviour (it never looks up a garbage dictionary index):
+        info length 8, the offending event is followed by no-info events with ids < 65536 (their id bytes are read
+        as key/flags = id/0) and then by an event with info, where the parse falls back in step; or it is the last."""
+        def rnd(i):
+            return (0, 2 + r.below(2), r.pick([0, 2]), 7, 100 + i, None if r.chance(1, 2) else r.below(256))
+        evs = [rnd(i) for i in range(r.range(0, 3))]
+        evs.append((0, 2, 1 | r.pick([0, 2, 4]), 7, 200, None))           # flag set, no info
+        if r.chance(2, 3):
+            evs += [(0, 2 + r.below(2), 0, 7, 300 + i, None) for i in range(r.range(1, 4))]
+            evs.append((0, 2 + r.below(2), 0, 7, 400, r.below(256)))
+            evs += [rnd(500 + i) for i in range(r.range(0, 3))]
+        return self.fmt(1, 0, 1, [(5, 7, 0, 8)], [0], evs)
+
+    def directed_case(self, r):
+        """per stream: k events with a small info and m without, then one event whose info length makes it
+        exactly fill the buffer / miss by one byte / leave one byte, then the same again"""
+        pages = r.pick([1, 1, 2, 3])
+        avail = pages * PAGE - HDR
+        ns = r.range(1, 4)
+        mode = r.pick([0, 1])
+        a = r.pick([0, 1, 8, 16, 40, 7])
+        keys = [(r.range(3, 12), r.range(6, 20), r.range(0, 12), a)]
+        per = []
+        for s in range(ns):
+            k, m = r.range(0, 12), r.range(0, 12)
+            pos = k * (24 + a) + m * 24
+            delta = r.pick([0, 0, 1, 1, -1])
+            b = avail - pos - 24 + delta
+            if b < 0 or 24 + b > avail:
+                b, delta = avail - pos - 24, 0
+            keys.append((r.range(3, 12), r.range(6, 20), r.range(0, 12), b))
+            bk = 2 * (len(keys))            # base key of this stream's filler = its index + 1 (N/A is 0)
+            seq = []
+            for rep in range(r.range(1, 3)):
+                body = [(2 + r.below(2), True)] * k + [(2 + r.below(2), False)] * m
+                body = r.shuffle(body)
+                seq += body + [(bk + r.below(2), True)]
+                if delta == 1 and rep == 0:
+                    seq += [(2, False)] * r.range(0, 3)
+            seq += [(2 + r.below(2), r.chance(1, 2)) for _ in range(r.range(0, 4))]
+            per.append([(s, key, r.pick([0, 0, 2, 4]) | (1 if (inf and r.chance(1, 2)) else 0), r.pick([0, 7, U32]),
+                         r.pick([0, 1, U64, r.u64()]), r.below(256) if inf else None) for (key, inf) in seq])
+        # random interleaving that keeps each stream's order
+        evs, idx = [], [0] * ns
+        while any(idx[s] < len(per[s]) for s in range(ns)):
+            s = r.pick([s for s in range(ns) if idx[s] < len(per[s])])
+            evs.append(per[s][idx[s]])
+            idx[s] += 1
+        return self.fmt(pages, mode, ns, keys, [r.pick([0, 1, 2]) for _ in range(ns)], evs)
+
     @staticmethod
     def fmt(pages, mode, ns, keys, ninfo, evs):
         return "%d %d %d | %s | %s | %s" % (
@@ -176,11 +236,25 @@ class C42(Check):
         for _ in range(6 * mult):
             out.append(self.one_case(r, r.range(1, 40), False))
         # large infos: several buffers per stream, boundary hits
-        for _ in range(40 * mult):
+        for _ in range(28 * mult):
             out.append(self.one_case(r, r.range(5, 45), True))
         # long streams of small events: many events per buffer, several buffers
+        for _ in range(1 * mult):
+            out.append(self.one_case(r, r.range(250, 350), False))
+        # events that exactly fill a buffer, miss it by one byte, leave one byte
+        for _ in range(14 * mult):
+            out.append(self.directed_case(r))
+        # the API accepts PARSEC_PROFILING_EVENT_HAS_INFO with a NULL info pointer
         for _ in range(2 * mult):
-            out.append(self.one_case(r, r.range(250, 400), False))
+            out.append(self.flag_case(r))
+        # stream infos that do not fit the thread buffer are omitted ("info ignored"), around the limit of a buffer
+        for _ in range(2 * mult):
+            pages = r.pick([1, 1, 2])
+            lim = pages * PAGE - HDR - 156 - 14           # value length at which the entry is exactly avail
+            ns = r.range(1, 3)
+            ninfo = [r.pick([lim - 1, lim, lim + 1, lim + r.range(2, 600), r.range(1200, lim - 1), r.pick([0, 2])]) for _ in range(ns)]
+            evs = [(r.below(ns), 2 + r.below(2), 0, 7, i, r.pick([None, r.below(256)])) for i in range(r.range(2, 8))]
+            out.append(self.fmt(pages, r.below(2), ns, [(5, 7, 0, 8)], ninfo, evs))
         return out
 
     def search_cases(self):
@@ -244,8 +318,8 @@ class C42(Check):
         m = re.match(r"mono=(\d) rc=(-?\d+) enc=", tail)
         if not m:
             return "unparsable observation tail: " + tail[:80]
-        if m.group(2) != "0":
-            return "the writer API returned %s" % m.group(2)
+        rc = int(m.group(2))
+        avail = pages * PAGE - HDR
         hw = head.split()
         if hw[0] != "err=0" or len(hw) < 2 or hw[1] != "D":
             return "the reader rejects the file: " + head[:80]
@@ -272,6 +346,7 @@ class C42(Check):
         threads = parts[1:-1]
         if len(threads) != len(sids):
             return "%d streams read back, %d streams logged events" % (len(threads), len(sids))
+        omitted = False
         for sid, th in zip(sids, threads):
             mm = re.match(r"(\S+) n=(-?\d+) I ?(\S*) :(.*)$", th)
             if not mm:
@@ -280,16 +355,28 @@ class C42(Check):
                 return "stream %s read back where s%d was expected" % (mm.group(1), sid)
             if int(mm.group(2)) != len(per[sid]):
                 return "stream s%d announces %s events, %d were logged" % (sid, mm.group(2), len(per[sid]))
-            winfo = sorted("%s=%s" % (gstr("i", sid * 16 + k, 4 + (sid + k) % 9), gstr("v", sid * 16 + k, 3 + (sid * 5 + k * 11) % 40))
+            big = sid < len(ninfo) and ninfo[sid] > 15
+            winfo = [] if big else sorted("%s=%s" % (gstr("i", sid * 16 + k, 4 + (sid + k) % 9), gstr("v", sid * 16 + k, 3 + (sid * 5 + k * 11) % 40))
                            for k in range(ninfo[sid] if sid < len(ninfo) else 0))
             ginfo = sorted(x for x in mm.group(3).split(",") if x)
-            if winfo != ginfo:
+            if big:        # an info that cannot fit a thread buffer is dropped with a warning ("info ignored"), else it must be intact
+                room = 156 + 11 + 3 + ninfo[sid]
+                if room < avail and ginfo != ["big=" + "v" * ninfo[sid]]:
+                    return "stream s%d: its info (%d bytes, fits) read back as %s" % (sid, ninfo[sid], str(ginfo)[:60])
+                if room >= avail and ginfo != []:
+                    return "stream s%d: an info that cannot fit was read back as %s" % (sid, str(ginfo)[:60])
+                if ginfo not in ([], ["big=" + "v" * ninfo[sid]]):
+                    return "stream s%d info read back as %s" % (sid, str(ginfo)[:80])
+                if ginfo == []:
+                    omitted = True
+            elif winfo != ginfo:
                 return "stream s%d infos read back as %s, added %s" % (sid, ginfo, winfo)
             gev = mm.group(4).split()
             for i, e in enumerate(per[sid]):
                 _, key, ufl, tp, eid, seed = e
                 if seed is None:
-                    w = "%d.%d.%d.%d.-1.00000000" % (key, ufl, tp, eid)
+                    # the HAS_INFO bit of a read-back event tells whether an info was attached: none here
+                    w = "%d.%d.%d.%d.-1.00000000" % (key, ufl & ~1, tp, eid)
                 else:
                     il = keys[key // 2 - 1][3]
                     w = "%d.%d.%d.%d.%d.%08x" % (key, ufl | 1, tp, eid, il, fnv([ibyte(seed, k) for k in range(il)]))
@@ -301,6 +388,8 @@ class C42(Check):
                 return "stream s%d: %d events read back, %d logged" % (sid, len(gev), len(per[sid]))
         if m.group(1) != "1":
             return "timestamps of a stream decrease"
+        if rc != 0 and not (rc == -1 and omitted):      # the dump reports the omitted info (PARSEC_ERROR), the file is complete
+            return "the writer API returned %d" % rc
         return None
 
     def signature(self, case, obs):
@@ -310,4 +399,9 @@ class C42(Check):
             return "badcase"
         if any((e[2] & 1) and e[5] is None for e in evs):
             return "hasinfo-flag-null-info"
+        if any(x > 3500 for x in ninfo) and obs.startswith("<"):
+            avail = pages * PAGE - HDR
+            if any(156 + 14 + x == avail for x in ninfo):
+                return "thread-entry-exactly-full"
+            return "stream-info-too-large"
         return "readback-p%d-s%d" % (pages, ns)
